@@ -59,6 +59,9 @@ Definition chk_flat_circle (a : circ_arc) (vs : list pt) (tol K slack : Q) : boo
       in_annulus c (ca_start a) (r - slack) (r + slack) && in_annulus c (ca_end a) (r - slack) (r + slack) &&
       (* every vertex within tol of the circle, every chord point within K tol *)
       forallb (fun v => in_annulus c v (r - slack) (r + tol + slack)) vs &&
+      (* a circle so small that every point of it is within K tol of every vertex (|P-V| <= 2r + tol + slack):
+         nothing else to check; otherwise chords and turning *)
+      (Qleb (2 * r + tol + slack) (K * tol) ||
       chk_chords c (ca_sweep a) (r - K * tol) (r + tol + slack) vs &&
       (* the directions turn monotonically through less than a full turn, and more than half a turn exactly
          when the large-arc flag is set (a half turn, up to slack, satisfies both) *)
@@ -69,7 +72,7 @@ Definition chk_flat_circle (a : circ_arc) (vs : list pt) (tol K slack : Q) : boo
           (let x := vcross (vsub v0 c) (vsub (last vs v0) c) in
            let half := Qleb x (slack * sqr r) && Qleb (- x) (slack * sqr r) && (2 <=? n)%Z && (n <=? 2)%Z in
            half || Bool.eqb (ca_large a) (2 <=? n)%Z)
-      end
+      end)
   | [] => false
   end.
 
@@ -87,7 +90,7 @@ Definition judge_circ (a : circ_arc) (tol K slack : Q) (ok : bool) (vs : list pt
     let ends := match vs with v0 :: _ => negb (peqb v0 (ca_start a) && peqb (last vs v0) (ca_end a) && Nat.leb 2 (length vs)) | [] => true end in
     let ctr := negb (in_annulus c (ca_start a) (r - slack) (r + slack) && in_annulus c (ca_end a) (r - slack) (r + slack)) in
     let vert := negb (forallb (fun v => in_annulus c v (r - slack) (r + tol + slack)) vs) in
-    let chords := negb (chk_chords c (ca_sweep a) (r - K * tol) (r + tol + slack) vs) in
+    let chords := negb (Qleb (2 * r + tol + slack) (K * tol) || chk_chords c (ca_sweep a) (r - K * tol) (r + tol + slack) vs) in
     [ (bitz ends 2 + bitz vert 4 + bitz chords 8 + bitz ctr 128 + 32)%Z; Z.of_nat (length vs - 1); 0%Z; 0%Z; 0%Z ].
 
 (** ** Arc -> cubic Beziers: implicit conic of the ellipse with rational centre, radii and rotation
@@ -148,7 +151,7 @@ Fixpoint joined (cs : list (list pt)) : bool :=
   | _ => true
   end.
 
-Definition arc_eps : Q := 1 # 1000.     (* |conic - 1| <= 1e-3, i.e. relative radial error about 5e-4 *)
+Definition arc_eps : Q := 1 # 250.      (* |conic - 1| <= 4e-3, i.e. relative radial error about 2e-3; the kappa of ellipseToCubicBeziers gives 3.93e-3 on a quarter turn *)
 Definition arc_sub : nat := 8%nat.
 
 Definition judge_arccube (e : ellipse) (ok : bool) (cubics : list (list pt)) : list Z :=
